@@ -72,6 +72,9 @@ func evalProgram(vm *r.VM, program *syntax.Program, varInputs r.ElementMap) (r.E
 		// 2. do exec block -> load values from context.varInputs -> current scope
 		paramList := []r.Element{}
 		for _, inputV := range program.ExecBlock.InputBlock {
+			// (what is being executed now is the input statement: a name that is not a
+			// valid one, a value the host has not set are reported at the line it begins on)
+			vm.SetCurrentLine(program.ExecBlock.InputBlock[0].GetCurrentLine())
 			inputName, err := MatchIDName(inputV)
 			if err != nil {
 				return nil, err
